@@ -49,7 +49,8 @@ def _reindex(sched, keep_idx):
     s["ops"] = [sched["ops"][i] for i in keep_idx]
     for key in ("faults", "buggify"):
         if key in s:
-            s[key] = [dict(f, op=new_index[f["op"]]) for f in s[key] if f["op"] in new_index]
+            s[key] = [(f if "path" in f else dict(f, op=new_index[f["op"]])) for f in s[key]
+                      if "path" in f or f["op"] in new_index]
     return s
 
 
